@@ -437,7 +437,9 @@ where
     }
     fn exec(&self, p: &RunParams) -> SubStats {
         let t0 = Instant::now();
-        let total = self.planned(p.tier);
+        // VERIF_CASES_SCALE (default 1) scales the planned work, e.g. 0.01 for a smoke run of the thorough tier
+        let scale: f64 = std::env::var("VERIF_CASES_SCALE").ok().and_then(|s| s.parse().ok()).unwrap_or(1.0);
+        let total = ((self.planned(p.tier) as f64 * scale).ceil() as u64).max(p.nshards as u64);
         let per = (total + p.nshards as u64 - 1) / p.nshards as u64;
         let col = RefCell::new(Collector::new(p, self.name, per));
         let cfg = Config {
